@@ -199,8 +199,21 @@ def make_fs(tj, **kw):
         fs.info_cache.clear()
         fs.set_placeholders(**ph)
         return fs
-    return FileSet(path="/vt-nonexistent-root/base/" + tj["template"], placeholder=ph or None,
-                   **args)
+    fs = FileSet(path="/vt-nonexistent-root/base/" + tj["template"], placeholder=ph or None,
+                 **args)
+    if tj.get("sibling_copy"):
+        # object history across two objects: a copy is re-configured (other patterns for every user
+        # placeholder, another path) as move() / map(output=...) do with their copies; the original is
+        # used afterwards
+        sib = fs.copy()
+        if tj["users"]:
+            sib.set_placeholders(**{u: "zz[0-9]" for u in tj["users"]})
+        sib.path = "/vt-nonexistent-root/sibling/{year}{month}{day}_{hour}{minute}{second}.bin"
+        try:
+            sib.get_filename((dt.datetime(2001, 2, 3, 4, 5, 6), dt.datetime(2001, 2, 3, 5, 5, 6)))
+        except Exception:
+            pass
+    return fs
 
 
 def fill_for(rng, tj):
@@ -445,6 +458,9 @@ def run_shard(spec, rec):
         if any(v is not None for v in tj["users"].values()) and rng.random() < 0.35:
             tj["late_ph"] = True
             rec.count("templates.placeholders_set_after_first_parse")
+        if rng.random() < 0.25:
+            tj["sibling_copy"] = True
+            rec.count("templates.with_reconfigured_copy")
         try:
             fs = make_fs(tj)
         except Exception as exc:
